@@ -289,9 +289,25 @@ def check_cost(case: typing.Any, ctx: Ctx) -> Info:
             try:
                 tb = TextBuilder(d)
                 tb.emit(spec_)
+                failing = case.get("fail_assert")
+                if failing is not None:
+                    # rejecting a definition is reading it too: a false assertion after some of the fields of the outermost type
+                    top = tb.order[-1][1]
+                    lines = tb.files[top].split("\n")
+                    first_field = 1 if lines[0] == "@union" else 0
+                    n_fields = len([ln for ln in lines if ln and not ln.startswith("@")])
+                    at = first_field + (n_fields if lines[0] == "@union" else 1 + failing % max(1, n_fields))
+                    lines.insert(min(at, len(lines) - 2), "@assert 2 + 2 == 5")
+                    tb.files[top] = "\n".join(lines)
                 root = tb.write()
 
                 def read() -> None:
+                    if failing is not None:
+                        try:
+                            pydsdl.read_namespace(root, [])
+                        except pydsdl.InvalidDefinitionError:
+                            return
+                        raise HarnessError("the definition with a false assertion was accepted")
                     types = pydsdl.read_namespace(root, [])
                     for t in types:
                         s = t.bit_length_set
@@ -364,6 +380,7 @@ def parts(ctx: Ctx) -> typing.List[Part]:
             "template": _templates(),
             "slots": st.lists(st.fixed_dictionaries({"cls": st.sampled_from([0, 1, 2, 2, 2]), "r": st.integers(0, 63), "frac": st.integers(0, 15)}), min_size=4, max_size=4),
             "text": st.booleans(),
+            "fail_assert": st.one_of(st.none(), st.none(), st.integers(0, 5)),
         }
     )
     return [Part("cost", cases, check_cost, weight=1)]
